@@ -260,11 +260,12 @@ def norm_items(items, nd):
     return out
 
 
-def as_slice(it):
-    """what __getitem__ turns a row / column item into: python ints (and 0-d tensors) become slice(i, i + 1)"""
+def as_slice(it, fixed=False):
+    """what __getitem__ turns a row / column item into: python ints (and 0-d tensors) become slice(i, i + 1)
+    (fixed=True: slice(i, i + 1 or None), the repaired front end)"""
     if it["k"] == "int" or (it["k"] == "t" and not it["shape"]):
         v = it["v"] if it["k"] == "int" else it["data"][0]
-        return ix.S(v, v + 1)
+        return ix.S(v, (v + 1 or None) if fixed else v + 1)
     return it
 
 
@@ -282,7 +283,10 @@ def path_attrs(e, items, shape):
     nd = len(shape)
     its = norm_items(items, nd)
     row, col = as_slice(its[-2]), as_slice(its[-1])
-    at = {"block_fast": False, "cat_idx": None, "cat_on_batch": None, "cat_dim3_batch_int": False, "row_eq_col": bool(row == col and not is_noop(row)),
+    # on a tree with the repaired front end an int i becomes slice(i, i + 1 or None): -1 then equals the slice -1: as well
+    row_f, col_f = as_slice(its[-2], fixed=True), as_slice(its[-1], fixed=True)
+    at = {"block_fast": False, "cat_idx": None, "cat_on_batch": None, "cat_dim3_batch_int": False,
+          "row_eq_col": bool((row == col and not is_noop(row)) or (row_f == col_f and not is_noop(row_f))),
           "batch_tensors_ge2": sum(1 for it in its[:-2] if it["k"] == "list" or (it["k"] == "t" and it["shape"])) >= 2}
 
     def visit(x, row, col):
